@@ -20,7 +20,22 @@ impl Prop for C14 {
     fn run_case(&mut self, cx: &CaseCx, out: &mut Out) {
         let mut r = xo(cx.seed);
         let max_lines = *r.pick(&[3, 10, 40, 120]);
-        let lines = gen_trace(&mut r, max_lines);
+        let mut lines = gen_trace(&mut r, max_lines);
+        let dense = cx.case % 65536 == 1;
+        if dense {
+            // scale: more than 2^16 packets from one side within one second (the rate limit the simulator derives
+            // from the trace itself must let the trace through untouched), then a sparse tail
+            let n = r.range(66_000, 74_000) as usize;
+            let gap = r.range(9, 13) * 1_000;
+            let both = r.chance(1, 3);
+            lines = (0..n as u64).map(|i| (i * gap, !both || i % 8 != 0)).collect();
+            let mut t = n as u64 * gap + 2_000_000_000;
+            for _ in 0..20 {
+                lines.push((t, r.chance(1, 2)));
+                t += r.range(1, 50) * 1_000_000;
+            }
+            out.bump("dense_traces_(more_than_2^16_packets_from_one_side_within_one_second)");
+        }
         let use_sim_fn = r.chance(1, 3);
         let c = SimCase {
             lines,
@@ -73,7 +88,9 @@ impl Prop for C14 {
                 if c.lines.len() >= 2 {
                     out.nontrivial(hash_of(&(&c.lines, c.delay_ns, c.only_client, c.only_network, use_sim_fn)));
                 }
-                out.sample(|| json!({"case": c.to_json(), "returned": run.events.iter().take(12).map(fmt_ev).collect::<Vec<_>>()}));
+                if !dense {
+                    out.sample(|| json!({"case": c.to_json(), "returned": run.events.iter().take(12).map(fmt_ev).collect::<Vec<_>>()}));
+                }
             }
         }
     }
